@@ -7,14 +7,60 @@ fn contents<T: Elem>(v: &CVec<T>) -> Vec<i64> {
     v.iter().map(|e| e.val()).collect()
 }
 
+// ---- a vector whose stored functions are FOREIGN (as a C caller or another module would build it through the published five-field layout):
+// recording wrappers around the functions the library stored.  The vector must be grown only through reserve_fn and released exactly once through
+// drop_fn(data, len, capacity) with ITS OWN current length and capacity.
+use std::sync::atomic::{AtomicBool, AtomicUsize, Ordering::SeqCst};
+static FOREIGN_VEC: AtomicBool = AtomicBool::new(false);
+static ORIG_DROP: AtomicUsize = AtomicUsize::new(0);
+static ORIG_RESERVE: AtomicUsize = AtomicUsize::new(0);
+static RESERVES: AtomicUsize = AtomicUsize::new(0);
+thread_local! { static DROP_CALLS: std::cell::RefCell<Vec<(usize, usize, usize)>> = std::cell::RefCell::new(Vec::new()); }
+#[repr(C)]
+struct VMirror<T> { data: *mut T, len: usize, capacity: usize, drop_fn: Option<unsafe extern "C" fn(*mut T, usize, usize)>, reserve_fn: extern "C" fn(&mut CVec<T>, usize) -> usize }
+unsafe extern "C" fn f_vdrop<T>(data: *mut T, len: usize, cap: usize) {
+    let d = crate::alloc::domain(0); DROP_CALLS.with(|c| c.borrow_mut().push((data as usize, len, cap))); crate::alloc::domain(d);
+    let f: unsafe extern "C" fn(*mut T, usize, usize) = std::mem::transmute(ORIG_DROP.load(SeqCst));
+    f(data, len, cap)
+}
+extern "C" fn f_vreserve<T>(v: &mut CVec<T>, additional: usize) -> usize {
+    RESERVES.fetch_add(1, SeqCst);
+    let f: extern "C" fn(&mut CVec<T>, usize) -> usize = unsafe { std::mem::transmute(ORIG_RESERVE.load(SeqCst)) };
+    // the original rebuilds a Vec around the buffer and stores ITS functions back: keep the foreign ones in place afterwards
+    let r = f(v, additional);
+    let m: &mut VMirror<T> = unsafe { &mut *(v as *mut CVec<T> as *mut VMirror<T>) };
+    m.drop_fn = Some(f_vdrop::<T>); m.reserve_fn = f_vreserve::<T>;
+    r
+}
+fn foreignize<T>(v: CVec<T>) -> CVec<T> {
+    if !FOREIGN_VEC.load(SeqCst) { return v; }
+    unsafe {
+        let mut m: VMirror<T> = std::mem::transmute_copy(&v); std::mem::forget(v);
+        if let Some(d) = m.drop_fn { if d as usize != f_vdrop::<T> as usize { ORIG_DROP.store(d as usize, SeqCst); } }
+        if m.reserve_fn as usize != f_vreserve::<T> as usize { ORIG_RESERVE.store(m.reserve_fn as usize, SeqCst); }
+        m.drop_fn = Some(f_vdrop::<T>); m.reserve_fn = f_vreserve::<T>;
+        std::mem::transmute_copy::<VMirror<T>, CVec<T>>(&std::mem::ManuallyDrop::new(m))
+    }
+}
+/// dropping `old` must call the stored drop function exactly once, with the vector's own (data, len, capacity)
+fn checked_drop<T>(old: CVec<T>, mon: &mut Mon, k: usize) {
+    if !FOREIGN_VEC.load(SeqCst) { drop(old); return; }
+    let want = (old.as_ptr() as usize, old.len(), old.capacity());
+    DROP_CALLS.with(|c| c.borrow_mut().clear());
+    drop(old);
+    let calls = DROP_CALLS.with(|c| std::mem::take(&mut *c.borrow_mut()));
+    if calls != vec![want] { mon.fail(format!("op{} releasing a vector with foreign functions: drop_fn was called with (data, len, capacity) = {:?}, expected exactly one call with (.., {}, {})", k, calls.iter().map(|c| (c.1, c.2)).collect::<Vec<_>>(), want.1, want.2)); }
+}
+
 fn go<T: Elem + Clone>(ops: &Rows, mon: &mut Mon) -> Rows {
     let mut out: Rows = Vec::new();
-    let mut v: CVec<T> = CVec::default();
+    let mut v: CVec<T> = foreignize(CVec::default());
     let mut oracle: Vec<i64> = Vec::new();
     let _ = take_drops();
     for (k, op) in ops.iter().enumerate() {
         let mut row: Vec<i64>;
         let before = oracle.clone();
+        let (cap0, res0) = (v.capacity(), RESERVES.load(SeqCst));
         match op[0] {
             0 => {
                 let x = T::mk(op[1]);
@@ -58,7 +104,7 @@ fn go<T: Elem + Clone>(ops: &Rows, mon: &mut Mon) -> Rows {
                 // Clone may panic half-way (element type PC): the source stays as it was and the clones made so far are destroyed, nothing else
                 let snap_before = (v.as_ptr() as usize, v.len(), v.capacity());
                 match quiet(|| v.clone()) {
-                    Ok(c) => { let old = std::mem::replace(&mut v, c); drop(old); row = vec![5]; }
+                    Ok(c) => { let old = std::mem::replace(&mut v, foreignize(c)); checked_drop(old, mon, k); row = vec![5]; }
                     Err(_) => {
                         if (v.as_ptr() as usize, v.len(), v.capacity()) != snap_before || contents(&v) != before { mon.fail(format!("op{} a clone that panicked modified its source", k)); }
                         // the unwinding destroyed exactly the clones made before the poisoned element
@@ -68,8 +114,8 @@ fn go<T: Elem + Clone>(ops: &Rows, mon: &mut Mon) -> Rows {
                         if got != want { mon.fail(format!("op{} a clone that panicked at element {} destroyed {:?}, std::Vec destroys the {} clones made so far {:?}", k, j, got, j, want)); }
                         // complete the operation by hand (same result as a clone that does not panic), so that the history continues as the model's
                         let fresh: Vec<T> = before.iter().map(|x| T::mk(*x)).collect();
-                        let old = std::mem::replace(&mut v, CVec::from(fresh));
-                        drop(old);
+                        let old = std::mem::replace(&mut v, foreignize(CVec::from(fresh)));
+                        checked_drop(old, mon, k);
                         row = vec![5];
                     }
                 }
@@ -87,8 +133,8 @@ fn go<T: Elem + Clone>(ops: &Rows, mon: &mut Mon) -> Rows {
                 let xs = &op[2..];
                 let mut nv: Vec<T> = Vec::with_capacity(xs.len() + spare);
                 for x in xs { nv.push(T::mk(*x)); }
-                let old = std::mem::replace(&mut v, CVec::from(nv));
-                drop(old);
+                let old = std::mem::replace(&mut v, foreignize(CVec::from(nv)));
+                checked_drop(old, mon, k);
                 oracle = xs.iter().map(|x| T::norm(*x)).collect();
                 row = vec![7];
             }
@@ -98,6 +144,7 @@ fn go<T: Elem + Clone>(ops: &Rows, mon: &mut Mon) -> Rows {
             }
             _ => { row = vec![-2]; }
         }
+        if FOREIGN_VEC.load(SeqCst) && !matches!(op[0], 5 | 7) && v.capacity() != cap0 && RESERVES.load(SeqCst) == res0 { mon.fail(format!("op{} the capacity of a vector with foreign functions changed from {} to {} without a call of its reserve_fn", k, cap0, v.capacity())); }
         // monitor: same contents/len as Vec after every op; capacity >= len
         if contents(&v) != oracle || v.len() != oracle.len() { mon.fail(format!("op{} contents differ from Vec", k)); }
         if v.capacity() < v.len() { mon.fail(format!("op{} capacity<len", k)); }
@@ -116,7 +163,7 @@ fn go<T: Elem + Clone>(ops: &Rows, mon: &mut Mon) -> Rows {
         if got != want { mon.fail(format!("op{} destructors ran for {:?}, std::Vec runs them for {:?}", k, got, want)); }
         out.push(ran);
     }
-    drop(v);
+    checked_drop(v, mon, ops.len());
     out.push(vec![99]);
     let ran = take_drops();
     let (mut got, mut want) = (ran.clone(), oracle.clone());
@@ -136,6 +183,13 @@ fn take_val<T: Elem>(e: T) -> i64 {
 }
 
 pub fn run(params: &[i64], ops: &Rows, mon: &mut Mon) -> Rows {
+    FOREIGN_VEC.store(params.get(1).copied().unwrap_or(0) == 1, SeqCst);
+    let r = run_elem(params, ops, mon);
+    FOREIGN_VEC.store(false, SeqCst);
+    r
+}
+
+fn run_elem(params: &[i64], ops: &Rows, mon: &mut Mon) -> Rows {
     match params.get(0).copied().unwrap_or(0) {
         0 => go::<E8>(ops, mon),
         1 => go::<E64>(ops, mon),
